@@ -45,6 +45,17 @@ class IntV(V):
         return f"Int({self.e!r})"
 
 
+class EnumIntV(IntV):
+    """A member of an IntEnum: an integer constant that also has an identity (class, member name)."""
+
+    def __init__(self, e, cls, name):
+        super().__init__(e)
+        self.cls, self.name = cls, name
+
+    def __repr__(self):
+        return f"{self.cls.name}.{self.name}({self.e!r})"
+
+
 class FloatV(V):
     """A float we know nothing about (only its existence)."""
 
@@ -906,6 +917,10 @@ class Interp:
                 r = a.name == b.name
                 r = r if isinstance(op, ast.Is) else not r
                 return ("t",) if r else ("f",)
+            if isinstance(a, EnumIntV) and isinstance(b, EnumIntV):
+                r = a.cls is b.cls and a.name == b.name
+                r = r if isinstance(op, ast.Is) else not r
+                return ("t",) if r else ("f",)
             return ("opaque", "is")
         if isinstance(a, IntV) and isinstance(b, IntV):
             table = {ast.Lt: lt, ast.LtE: le, ast.Gt: gt, ast.GtE: ge, ast.Eq: eq}
@@ -925,6 +940,10 @@ class Interp:
             bitems = st.items(b)
             if isinstance(a, EnumV) and all(isinstance(x, EnumV) for x in bitems):
                 r = any(x.name == a.name for x in bitems)
+                r = r if isinstance(op, ast.In) else not r
+                return ("t",) if r else ("f",)
+            if isinstance(a, IntV) and a.e.is_const() and all(isinstance(x, IntV) and x.e.is_const() for x in bitems):
+                r = any(x.e.const == a.e.const for x in bitems)
                 r = r if isinstance(op, ast.In) else not r
                 return ("t",) if r else ("f",)
             if isinstance(a, ClassV) and all(isinstance(x, ClassV) for x in bitems):
@@ -1163,7 +1182,7 @@ class Interp:
             if self.is_int_enum(cls) and attr in dict(self.enum_members(cls)):
                 # a member of an IntEnum is used as the integer it is
                 try:
-                    return self.val(st, IntV(int(const_eval(dict(self.enum_members(cls))[attr]))))
+                    return self.val(st, EnumIntV(int(const_eval(dict(self.enum_members(cls))[attr])), cls, attr))
                 except (NotConst, TypeError, ValueError):
                     self.unsupported(node, f"IntEnum member {cls.name}.{attr} with a value that is not a constant")
             if any(isinstance(b, str) and b.split(".")[-1] in ("Enum", "IntEnum") for c in cls.mro() for b in c.bases) \
@@ -1245,6 +1264,8 @@ class Interp:
             return self.val(st, _BoundBuiltin(v, attr))
         if isinstance(v, SliceObjV) and attr in ("start", "stop"):
             return self.val(st, getattr(v, attr))
+        if isinstance(v, EnumIntV) and attr in ("name", "value"):
+            return self.val(st, self.from_python(v.name) if attr == "name" else IntV(v.e))
         if isinstance(v, IntV) or isinstance(v, FloatV):
             return self.val(st, _BoundBuiltin(v, attr))
         self.unsupported(node, f"attribute {attr} of {v!r}")
@@ -1421,7 +1442,7 @@ class Interp:
             return [self.from_python(k) if not isinstance(k, tuple) else OpaqueV("key") for k in st.items(it)]
         if isinstance(it, ClassV) and self.is_int_enum(it.cls):
             try:
-                return [IntV(int(const_eval(v))) for _, v in self.enum_members(it.cls)]
+                return [EnumIntV(int(const_eval(v)), it.cls, k) for k, v in self.enum_members(it.cls)]
             except (NotConst, TypeError, ValueError):
                 return None
         return None
